@@ -131,7 +131,10 @@ def c18(thorough):
     # exhaust pulls everything whatever the elements are (truthy, falsy, None, exceptions as values)
     for vals in ([0, 1, 2, 0, 3], [1, 1, 1], [0, '', None], [None, True, False, 'x', (), [0]], list(range(50))):
         src = iter(vals)
-        r = exhaust(src)
+        try:
+            r = exhaust(src)
+        except BaseException as e:  # noqa  (raised by the code under test: a finding)
+            r = e
         left = list(src)
         runs += 1
         if r is not None or left:
@@ -316,6 +319,12 @@ def c19(thorough):
                     pass
                 except BaseException as e:  # noqa
                     probs.append('string without separator raised %r' % (e,))
+    # parse_keys is a flag: its truthiness counts, not its identity with True/False
+    for flag in (1, 'yes', [0], 2.5, 0, '', None, []):
+        runs += 1
+        got = parse_to_dict({'1': '2'}, parse_keys=flag)
+        if got != ({1: 2} if flag else {'1': 2}):
+            probs.append('parse_to_dict({"1": "2"}, parse_keys=%r) -> %r' % (flag, got))
     # every item counts: an empty string is a string without the separator, an empty tuple is not a pair
     for items, exp in ((['a=1', '', 'b=2'], ValueError), ([''], ValueError), (['a=1', ()], (TypeError, ValueError)),
                        ([('k', '')], {'k': ''}), (['='], {'': ''})):
